@@ -27,9 +27,4 @@ theorem final64_eq (v : V) : barrett p64 (reduce128 p64 v) = (stepN P64' 128 v).
     (Lin.comp (lin_stepN P64' 128) (lin_setWidth 64)) ?_ v
   rw [p64_eq]; decide +kernel
 
-/-- folding by 128 bits: `fold(v, fold128) ≡ v·x^128`. -/
-theorem fold128_64_eq (v : V) : stepN P64' 128 (fold v p64.fold128) = stepN P64' 256 v := by
-  refine basisAll_sound (Lin.comp (lin_fold _) (lin_stepN P64' 128)) (lin_stepN P64' 256) ?_ v
-  rw [p64_eq]; decide +kernel
-
 end XzVerif.Clmul
